@@ -203,6 +203,21 @@ func (ex *Exec) callStatic(fr *Frame, st *State, fn *ssa.Function, free []Val, a
 		ex.fireOnCall(fr, st, key, args, res, false, x, resT)
 		return res
 	}
+	if ex.contract != nil && len(ex.contract.Opaque) > 0 {
+		short := key
+		if i := strings.Index(key, "."); i >= 0 {
+			short = key[i+1:]
+		}
+		for _, pat := range ex.contract.Opaque {
+			if oncallMatches(OnCall{Callee: pat}, key, short) {
+				ex.assumedUsed[key+" (opaque here: result unconstrained, no visible effect)"] = true
+				ex.fireOnCall(fr, st, key, args, nil, true, x, resT)
+				res := ex.havocCall(fr, st, "opaque "+key, resT, true)
+				ex.fireOnCall(fr, st, key, args, res, false, x, resT)
+				return res
+			}
+		}
+	}
 	if inRepo(fn) && len(fn.Blocks) > 0 && fr.depth < ex.maxInline && !ex.onStack(fn) {
 		ex.inlinedUsed[key] = true
 		ex.fireOnCall(fr, st, key, args, nil, true, x, resT)
@@ -408,6 +423,11 @@ func (ex *Exec) applyContract(fr *Frame, st *State, ct *Contract, key string, na
 		pos = x.Pos()
 	}
 	for i, r := range ct.Requires {
+		if ct.Extern && !ex.checkPanics {
+			// the preconditions of external functions are their documented panic
+			// conditions: obligations of safety contracts only
+			continue
+		}
 		g := ex.evalBool(r, env)
 		ex.oblige(fr, "pre", key+":"+clauseName(r, i), fr.blockPC, g, pos)
 	}
@@ -566,7 +586,11 @@ func (ex *Exec) fireOnCall(fr *Frame, st *State, key string, args []Val, res Val
 // (arguments and state as the caller passed them); after it, the ghost
 // updates, the assumptions and the checks on the result.
 func (ex *Exec) fireOnCallTyped(fr *Frame, st *State, key string, args []Val, ptypes []types.Type, res Val, x ssa.CallInstruction, resT types.Type, before bool) {
-	if ex.contract == nil || !fr.isTop {
+	if ex.contract == nil {
+		return
+	}
+	deepOnly := !fr.isTop
+	if deepOnly && ex.topFrame == nil {
 		return
 	}
 	short := key
@@ -574,7 +598,10 @@ func (ex *Exec) fireOnCallTyped(fr *Frame, st *State, key string, args []Val, pt
 		short = key[i+1:]
 	}
 	for _, oc := range ex.contract.OnCalls {
-		if oc.Callee != key && oc.Callee != short {
+		if !oncallMatches(oc, key, short) {
+			continue
+		}
+		if deepOnly && !oc.Deep {
 			continue
 		}
 		if oc.Ord != 0 && ex.callSiteOrd(fr.fn, x) != oc.Ord {
@@ -602,7 +629,11 @@ func (ex *Exec) fireOnCallTyped(fr *Frame, st *State, key string, args []Val, pt
 			}
 		}
 		ex.callOrd[oc.Callee]++
-		env := ex.loopEnv(fr, st)
+		envFr := fr
+		if deepOnly {
+			envFr = ex.topFrame
+		}
+		env := ex.loopEnv(envFr, st)
 		for i, a := range args {
 			var t types.Type
 			if i < len(ptypes) {
@@ -1098,4 +1129,31 @@ func mentionsGhost(e ast.Expr, ct *Contract) bool {
 		return !found
 	})
 	return found
+}
+
+// oncallMatches: exact callee (with or without the package), or a wildcard
+// `Type.*` over the methods of a type, minus the excepted names.
+func oncallMatches(oc OnCall, key, short string) bool {
+	if oc.Callee == key || oc.Callee == short {
+		return true
+	}
+	if strings.HasSuffix(oc.Callee, ".*") {
+		pre := strings.TrimSuffix(oc.Callee, "*")
+		var m string
+		switch {
+		case strings.HasPrefix(short, pre):
+			m = short[len(pre):]
+		case strings.HasPrefix(key, pre):
+			m = key[len(pre):]
+		default:
+			return false
+		}
+		for _, e := range oc.Except {
+			if e == m {
+				return false
+			}
+		}
+		return !strings.Contains(m, ".")
+	}
+	return false
 }
